@@ -187,6 +187,10 @@ def run_impl(case, scratch: Path):
 
     files = case_files(case)
     roots = {p.split("/")[0].removesuffix(".py") for p in files}
+    import shutil
+    for r in roots:      # a module and a package of the same name must not coexist from an earlier case
+        shutil.rmtree(scratch / r, ignore_errors=True)
+        (scratch / f"{r}.py").unlink(missing_ok=True)
     for rel, src in files.items():
         (scratch / rel).parent.mkdir(parents=True, exist_ok=True)
         (scratch / rel).write_text(src)
